@@ -160,6 +160,9 @@ type Sim struct {
 
 	RecordEvents bool
 	EvtLog       []byte
+
+	commitSeq  int
+	taskCommit map[string]int // task id -> sequence number of its last successful commit
 }
 
 var S *Sim
@@ -526,6 +529,9 @@ func (t *yTx) Commit() error {
 	err := t.Tx.Commit()
 	t.done()
 	if s != nil {
+		if err == nil {
+			s.noteCommit(t.ctx)
+		}
 		s.Yield(t.ctx, "committed")
 	}
 	return err
@@ -642,4 +648,26 @@ func (s *Sim) RunTaskFirst(ctx context.Context, id string, f func(ctx context.Co
 	s.mu.Unlock()
 	s.Settle()
 	return ok
+}
+
+func (s *Sim) noteCommit(ctx context.Context) {
+	id, _ := ctx.Value(taskKey{}).(string)
+	if id == "" {
+		id = s.taskOfGoroutine()
+	}
+	s.mu.Lock()
+	s.commitSeq++
+	if s.taskCommit == nil {
+		s.taskCommit = map[string]int{}
+	}
+	s.taskCommit[id] = s.commitSeq
+	s.mu.Unlock()
+}
+
+// TaskCommit returns the global sequence number of the task's last successful commit: the
+// linearisation point of single-transaction operations (and of a pull: its delivering commit).
+func (s *Sim) TaskCommit(id string) int {
+	s.mu.Lock()
+	defer s.mu.Unlock()
+	return s.taskCommit[id]
 }
